@@ -84,6 +84,10 @@ pub struct TransRes {
     /// C14: iterator words run on the concrete post-state of the transition
     pub iter_runs: u64,
     pub iter_problems: Vec<String>,
+    /// the observer battery run on the concrete object this transition produced (not only on the
+    /// representative history of its abstract state), and the snapshot afterwards
+    pub post_obs: Vec<(Op, Ret)>,
+    pub post_after_obs: Option<Snap>,
 }
 
 pub trait Driver: Sync + Send {
@@ -369,6 +373,21 @@ impl<S: Subject> Driver for SubjDriver<S> {
                         let post = snap_of(&c);
                         if !panicked {
                             res.exec.conservation = conservation(&post);
+                        }
+                        if want.observers && !panicked && res.audit.structural.is_empty() {
+                            let mut out2 = Vec::new();
+                            for op in observers(&self.cfg) {
+                                if matches!(op, Op::Iters) {
+                                    continue; // the iterator families have their own per-transition run (C14)
+                                }
+                                let r = apply_caught(&mut c, op, &mut out2);
+                                alloc::untracked(|| res.post_obs.push((op, r)));
+                            }
+                            drop(out2);
+                            let a2 = audit_of(&c);
+                            if a2.dangling.is_empty() {
+                                res.post_after_obs = Some(snap_of(&c));
+                            }
                         }
                         if want.iters && !panicked && res.audit.structural.is_empty() {
                             // the concrete object reached by this very transition (not only the state's
